@@ -60,6 +60,36 @@ impl KalmanState<{ kalman_2d_box::DIM_2D_BOX_X2 }> {
     }
 }
 
+/// Verification accessors (feature `similari_verif` only): raw mean and row-major covariance.
+#[cfg(feature = "similari_verif")]
+impl<const X: usize> KalmanState<X> {
+    pub fn verif_raw(&self) -> (Vec<f32>, Vec<f32>) {
+        let mean = self.mean.iter().cloned().collect();
+        let mut cov = Vec::with_capacity(X * X);
+        for i in 0..X {
+            for j in 0..X {
+                cov.push(self.covariance[(i, j)]);
+            }
+        }
+        (mean, cov)
+    }
+
+    pub fn verif_from_raw(mean: &[f32], cov: &[f32]) -> Self {
+        let mut m: SVector<f32, X> = SVector::zeros();
+        let mut c: SMatrix<f32, X, X> = SMatrix::zeros();
+        for i in 0..X {
+            m[i] = mean[i];
+            for j in 0..X {
+                c[(i, j)] = cov[i * X + j];
+            }
+        }
+        KalmanState {
+            mean: m,
+            covariance: c,
+        }
+    }
+}
+
 impl<const X: usize> KalmanState<X> {
     /// dump the state
     ///
